@@ -268,6 +268,9 @@ func dynamicIntrinsic(fr *frame, fn *ssa.Function, name string, args []value) (v
 		if strings.HasSuffix(path, "/zz_sv") {
 			return svIntrinsic(fr, fn, args)
 		}
+		if (path == "github.com/gogo/protobuf/proto" || path == "github.com/golang/protobuf/proto") && strings.HasPrefix(fn.Name(), "Register") {
+			return nil, true // protobuf registries are not consulted by the code under analysis
+		}
 	}
 	return nil, false
 }
@@ -381,7 +384,9 @@ func extBytesEqual(fr *frame, args []value) value {
 			if ba == bb {
 				return true
 			}
-			panic(abortPath{"bytes.Equal on two distinct serialised blobs"})
+			// two serialised values: equal iff their contents are equal
+			// (the encoder is a function of the content)
+			return mkBool(deepEqTerm(a, b, 0))
 		}
 		// a blob is a JSON document: never equal to the tombstone or to
 		// any non-JSON constant; compared with other concrete bytes it
